@@ -160,11 +160,23 @@ _DENY |= {'group', 'groups', 'start', 'end', 'span', 'write', 'read', 'close',
           'create_collection', 'drop_collection'}
 
 
+class _Funcs(dict):
+    """qualified name -> Func.  Specialised views (sa.specialise.flat) are found by name but are not members: iterating over
+    the program's functions never meets the same source twice."""
+
+    def __init__(self):
+        super().__init__()
+        self.views = {}
+
+    def __missing__(self, k):
+        return self.views[k]
+
+
 class Program:
     def __init__(self, sources):
         self.sources = sources
         self.modules = {}
-        self.funcs = {}
+        self.funcs = _Funcs()
         self.classes = {}
         self.parse_errors = []
         for rel, src in sorted(sources.items()):
@@ -189,6 +201,13 @@ class Program:
                 self._bymeth[f.name].add(f)
         self._calls_cache = {}
         self._ret_ctor_cache = {}
+        # functions that are new with respect to the rules' vocabulary are read in place (sa/specialise.py)
+        from .specialise import normalise
+        self.normalised = normalise(self)
+        if self.normalised:
+            self._calls_cache = {}
+            self._ret_ctor_cache = {}
+            self._fields()
 
     @classmethod
     def load(cls, root=None, overlay=None):
